@@ -96,6 +96,9 @@ def confirm(report):
         route = None
         if 'witness' in vio and vio['witness'] and 'instruction' in vio['witness']:
             route = confirm_op
+        elif vio['key'].startswith('dwarf.'):
+            from . import natives
+            route = natives.confirm_dwarf
         elif vio.get('spec') is not None or vio.get('spec_json') is not None:
             from . import natives
             route = natives.confirm_structure
